@@ -24,8 +24,9 @@ COMMON_ASSUMPTIONS = [
 ]
 
 
-def P(level, quick_s, thorough_s, rule, assumptions=None, variant="asan", sanitizers=ASAN, expect_probes=None):
+def P(level, quick_s, thorough_s, rule, assumptions=None, variant="asan", sanitizers=ASAN, expect_probes=None, phases=None):
     return {
+        "phases": phases,
         "level": level,
         "quick_s": quick_s,
         "thorough_s": thorough_s,
@@ -115,4 +116,15 @@ PROPS = {
              "the same hostile histories as C17 (without tail); a shared Decoder sees everything, one fresh real Decoder per endpoint sees only the CMP-routed frames naming that endpoint; for every such frame "
              "both outputs must be equal (count, every getter, payload bytes); distinct = plan hash; non-trivial = at least two endpoints occurred; interleavings = hash of the delivered endpoint sequence",
              expect_probes=["multi-endpoint-history", "tecmp-frame", "undersized-buffer"]),
+    "C20": P("exploration", 40, 600,
+             "workloads of the C01, C05, C13, C15, C16, C06, C04 and C10 generators (every payload kind, padded and unpadded frames, control/status/vendor messages whose header leaves id bytes unused, "
+             "reassembly, TECMP conversion, builders, status tracker); phase A (native): each plan executed three times with fresh-heap / released-heap / stack fill patterns (0xA5,0x5A), (0x3C,0xC3), (0,0) "
+             "via replaced operator new/delete and a 48 KiB stack scribble before every API call, all outputs (every frame byte, every getter and payload byte of every packet, raw bytes of every built payload) "
+             "must hash identically; phase B (valgrind memcheck on the same objects without the allocator layer): VALGRIND_CHECK_MEM_IS_DEFINED on every output buffer and zero memcheck errors per run; "
+             "distinct = plan hash; non-trivial = the run produced outputs under the differential or under valgrind",
+             assumptions=["stack definedness is only as good as valgrind's tracking; MSan is not usable with the uninstrumented libstdc++"],
+             variant="plain", sanitizers="phase A: none (native g++ -O2 with hostile allocator); phase B: valgrind 3.19 memcheck --undef-value-errors=yes",
+             expect_probes=["fill-differential", "valgrind-run"],
+             phases=[{"tag": "fill", "bin": "simcheck", "wrap": [], "share": 0.5, "shrink": 400},
+                     {"tag": "vg", "bin": "simcheck-vg", "wrap": ["valgrind", "-q", "--error-exitcode=0", "--undef-value-errors=yes", "--num-callers=12"], "share": 0.5, "shrink": 60}]),
 }
